@@ -24,8 +24,9 @@ func zzC06_retain() {
 	d := vAbstractDict()
 	app := vU32("app")
 	zzKnownCommand(d, app, 257)
-	// payload bytes: 4 (IPv4-sized), 16 (IPv6-sized), 20 (other-family Address with 18 data bytes), 8, 12
-	pl := [5]int{4, 16, 20, 8, 12}[vChoice("payload", vParam("PL", 3))]
+	// payload bytes: 4 (IPv4-sized), 16 (IPv6-sized), 20 (other-family Address with 18 data bytes),
+	// 6 (Address family 1 + IPv4), 18 (Address family 2 + IPv6), 8, 12
+	pl := [7]int{4, 16, 20, 6, 18, 8, 12}[vChoice("payload", vParam("PL", 5))]
 	nested := vBool("nested")
 	body1 := vBytes("m1", 8+pl)
 	vAssume(body1[4]&0x80 == 0 && int(body1[5])<<16|int(body1[6])<<8|int(body1[7]) == 8+pl)
